@@ -215,3 +215,42 @@ PROPS["C17"] = dict(
                       "executions_with_caller_cancel": 1000, "executions_with_caller_deadline": 300, "executions_with_nested_scope": 1000, "cancellations_observed": 5000},
             "thorough": {"executions_multi_thread": 100000}},
 )
+
+PROPS["C15"] = dict(
+    title="Rate and concurrency limits are enforced on every RPC stream",
+    level="exploration",
+    technique="runtime monitoring on a manual clock: sliding-window checker over all pairs of grants, arrival-order checker, differential run for cancelled waits; Miri/TSan on the same workload",
+    explanation="(a) Operation sequences (acquire(k) for k in 0..burst+1 with hold times, cancellation of pending acquires, clock advances of 1 ns / r-1 / r / many r) run on the real "
+    "limiter::Limiter with a manual clock; every window between two grants is checked against burst + T/r + 1, grants against arrival order, k > burst never grants, "
+    "refresh 0 grants immediately, every satisfiable caller is eventually served, and a phase of only-cancelled waits must leave the limiter granting exactly like one that "
+    "never saw them. A multi-thread stress variant checks the window bound with real time. (b) The per-connection half (RPC services over a scripted transport) is the network stage.",
+    assumptions=["held on the generated operation sequences only", "the multi-thread variant stamps grants after the fact and allows 5 ms of stamping delay"],
+    stages=[
+        dict(name="limiter-native", flavour="release", **CONC),
+        dict(name="limiter-miri", flavour="miri", args=_SMALL, shards=8, tiers=["thorough"], **CONC),
+    ],
+    floors={"quick": {"windows_checked": 100000, "cancelled_waits_observed": 5000, "differential_cancel_cases": 2000, "fifo_sequences_checked": 2000, "oversized_requests_checked": 1000, "infinite_rate_requests_checked": 1000},
+            "thorough": {"windows_checked": 1000000}},
+)
+
+PROPS["C16"] = dict(
+    title="Pending consensus input stays bounded and always keeps the freshest vote",
+    level="exploration",
+    technique="runtime monitoring: sequential reference-queue diff + linearizability check of small concurrent histories on the real inbound queue; cache-size bound checker on replica snapshots under a flood of future-view votes",
+    explanation="(a) The queue returned by bft::create_input_channel() (real signature filter and selection function) is driven with genuinely signed messages of 3 senders x 4 kinds x "
+    "views 0-5 (some with signatures that do not verify): sequential send/recv histories are diffed after every operation against a reference queue written from the statement; "
+    "concurrent histories (2-4 sender threads + consumer, <= 13 operations, call/return stamps from one counter) are checked for linearizability by exhaustive search, plus "
+    "search-free invariants (one pending per sender and kind, nothing invented/invalid). The generic prunable queue is additionally run under Miri and ThreadSanitizer. "
+    "(b) In the replica simulator Byzantine validators (<= f) and replays flood correct replicas with validly signed votes for thousands of future views; every snapshot must keep "
+    "commit_views/timeout_views/timeout_qcs caches <= n, commit_qcs views <= n and entries <= n^2.",
+    assumptions=_SIM_ASSUME,
+    stages=[
+        dict(name="channel", flavour="release", args={"mode": "channel"}, **SIM),
+        dict(name="flood", flavour="release", **SIM),
+        dict(name="generic-queue", flavour="release", **CONC),
+        dict(name="generic-queue-miri", flavour="miri", args=_SMALL, shards=8, tiers=["thorough"], **CONC),
+        dict(name="generic-queue-tsan", flavour="tsan", args=_SMALL, shards=4, tiers=["thorough"], **CONC),
+    ],
+    floors={"quick": {"sequential_recvs_checked": 20000, "linearizability_checks": 500, "sends_with_bad_signature": 500, "byz_byz-future-votes": 1000, "snapshots_checked": 50000},
+            "thorough": {"linearizability_checks": 10000}},
+)
